@@ -51,92 +51,142 @@ def r18_1(rep):
             rep.check(same, "merge-key:" + f, "`%s` compared with `%s`" % (lhs, rhs), b.loc(c))
 
 
-@RULES.rule("R18.2", "merge loop hands every item to exactly one sink", floor=5)
+REORDERERS = {"swap", "insert", "reverse", "sort", "sort_by", "sort_by_key", "sort_unstable", "sort_unstable_by", "sort_unstable_by_key",
+              "rotate_left", "rotate_right", "splice", "retain", "dedup", "truncate", "clear", "drain", "remove", "pop", "swap_remove",
+              "split_off", "swap_with_slice"}
+
+
+def _fm_test(b, item_id, pol_kind_g):
+    """+1 when the guard says `item` IS an Item::ForeignMod, -1 when it says it is not, 0 otherwise."""
+    pol, kind, g = pol_kind_g
+    pat = init = None
+    if kind == "cond" and strip(g).get("k") == "LetCond":
+        pat, init = strip(g)["pat"], strip(g)["init"]
+    elif kind == "letelse":
+        pat, init = g["pat"], g.get("init")
+    if pat is None or init is None:
+        return 0
+    x = strip(init)
+    if not (x.get("k") == "Local" and x["id"] == item_id):
+        return 0
+    if not any(v == "syn::Item::ForeignMod" for v in pat_variants(pat)):
+        return 0
+    return 1 if pol else -1
+
+
+@RULES.rule("R18.2", "merge loop hands every item to exactly one sink, and merged items keep their order", floor=11)
 def r18_2(rep):
+    """`visit_items` takes the item list, keeps one block per (attrs, abi, unsafety) key and pushes everything else back.  Nothing may
+    be lost (every non-extern item pushed back; every extern block either appended to THE block with its key or stored as a new one,
+    decided per item by a flag that starts false for each item) and nothing inside a key group may change places (the incoming items
+    are appended behind the ones already collected; no swap / sort / truncate on either list).  Both the `if let .. else` and the
+    `let .. else { push; continue }` spelling of the dispatch are read."""
     sites = rep.need(merge_fn(rep), "merge function")
     b = sites[0][0]
-    # the loop over the taken items
     loops = [n for n in b.walk() if n["k"] == "For" and "std::mem::take" in b.canon(n["iter"])]
     rep.need(loops, "for loop over mem::take(items) in %s" % b.path)
     loop = loops[0]
     item_id = loop["pat"].get("id")
-    # no early exits from the outer loop body
+
+    def ctx(n):
+        """+1 / -1 / 0: n runs only for extern blocks / only for other items / for both"""
+        v = 0
+        for g3 in b.guards(n, nested=True):
+            t = _fm_test(b, item_id, g3)
+            if t:
+                v = t
+        # the `else` block of a let-else runs exactly when the pattern did not match
+        for a in b.ancestors(n):
+            if a["k"] == "Let" and "els" in a and any(x is n for x in b.walk(a["els"])):
+                if _fm_test(b, item_id, (True, "letelse", a)) == 1:
+                    v = -1
+        return v
+    # ---- other items are pushed back --------------------------------------------------------------------------------
+    pushes = [c for c in b.calls(lambda n: n["k"] == "MCall" and n["name"] == "push", loop["body"])
+              if strip(c["args"][0]).get("k") == "Local" and strip(c["args"][0])["id"] == item_id]
+    good = [c for c in pushes if ctx(c) == -1 and
+            not [g3 for g3 in b.guards(c, nested=True) if g3 not in b.guards(loop["body"], nested=True) and _fm_test(b, item_id, g3) == 0]]
+    rep.check(bool(good), "push-back-other-items", "a non-extern item is pushed back to `items` on every path", b.loc(loop["body"]))
+    # ---- no early exits -------------------------------------------------------------------------------------------------
+    bad_exit = None
     for n in b.walk(loop["body"]):
-        if n["k"] in ("Ret", "Continue"):
-            rep.bad("no-early-exit", "`%s` inside the merge loop drops the current item" % n["k"].lower(), b.loc(n))
-        if n["k"] == "Break":
+        if n["k"] == "Ret":
+            bad_exit = n
+        elif n["k"] in ("Break", "Continue"):
             inner = [a for a in b.ancestors(n) if a["k"] in ("For", "While", "Loop")]
             if inner and inner[0] is loop:
-                rep.bad("no-early-exit", "`break` leaves the merge loop and drops the remaining items", b.loc(n))
-    rep.ok("no-early-exit")
-    # non-extern items are pushed back, unconditionally, in the else branch
-    body = loop["body"]
-    top = strip(body)
-    iff = top if top["k"] == "If" else None
-    if iff is None:
-        for st in body.get("stmts", []):
-            if st.get("e", {}).get("k") == "If":
-                iff = st["e"]
-    rep.need(iff, "if let Item::ForeignMod(..) = item")
-    pushes_back = []
-    if "else" in iff:
-        for c in b.calls(lambda n: n["k"] == "MCall" and n["name"] == "push", iff["else"]):
-            a = strip(c["args"][0])
-            if a["k"] == "Local" and a["id"] == item_id:
-                extra = [g for g in b.guards(c) if g not in b.guards(iff["else"]) and not (g[1] == "cond" and g[2] is iff["cond"])]
-                pushes_back.append((c, extra))
-    rep.check(any(not extra for _, extra in pushes_back), "push-back-other-items",
-              "a non-extern item must be pushed back to `items` on every path of the else branch", b.loc(iff))
-    # exists-flag protocol in the then branch
-    then = iff["then"]
-    ext = [c for c in b.calls(lambda n: n["k"] == "MCall" and n["name"] in ("extend_from_slice", "extend", "append"), then)]
-    store = [c for c in b.calls(lambda n: n["k"] == "MCall" and n["name"] == "push", then)
+                # `continue` right after the push-back of a non-extern item is the let-else spelling of the else branch
+                blk = b.parent[n["_i"]]
+                while blk is not None and blk["k"] != "Block":
+                    blk = b.parent[blk["_i"]]
+                after_push = n["k"] == "Continue" and blk is not None and any(any(x is c for x in b.walk(blk)) for c in good) and ctx(n) == -1
+                if not after_push:
+                    bad_exit = n
+    rep.check(bad_exit is None, "no-early-exit", "no way out of the loop body that skips an item" if bad_exit is None else
+              "`%s` inside the merge loop drops the current (or every remaining) item" % bad_exit["k"].lower(), b.loc(bad_exit or loop))
+    # ---- extern blocks: merged into the block with the same key, or stored ----------------------------------------------
+    ext = [c for c in b.calls(lambda n: n["k"] == "MCall" and n["name"] in ("extend_from_slice", "extend", "append"), loop["body"])
+           if strip(c["recv"]).get("k") == "Field" and strip(c["recv"]).get("adt") == FM and strip(c["recv"])["f"] == "items"]
+    store = [c for c in b.calls(lambda n: n["k"] == "MCall" and n["name"] == "push", loop["body"])
              if strip(c["args"][0])["k"] == "Struct" and strip(c["args"][0]).get("adt") == FM]
-    rep.check(len(ext) == 1, "merge-extend-once", "exactly one extend of an existing block (found %d)" % len(ext), b.loc(then))
-    rep.check(len(store) == 1, "store-new-block", "exactly one push of a new block (found %d)" % len(store), b.loc(then))
-    if ext and store:
-        # the flag that guards the store is assigned true exactly where the extend happens
-        sg = [g for g in b.guards(store[0]) if g[1] == "cond" and g not in b.guards(then)]
-        flag = None
-        for pol, kind, g in sg:
-            e = strip(g)
-            if e["k"] == "Unary" and e["op"] == "!" and strip(e["e"])["k"] == "Local":
-                flag = (strip(e["e"])["id"], False)
-            elif e["k"] == "Local":
-                flag = (e["id"], True)
-            if flag and not pol:
-                flag = (flag[0], not flag[1])
-        if not rep.check(flag is not None and flag[1] is False, "store-iff-not-merged",
-                         "the new block is stored under `!<flag>`", b.loc(store[0])):
-            return
-        assigns = [n for n in b.walk(then) if n["k"] == "Assign" and strip(n["l"]).get("id") == flag[0]]
-        extp = b.parent[ext[0]["_i"]]
-        while extp is not None and extp["k"] != "Block":
-            extp = b.parent[extp["_i"]]
-        good = len(assigns) == 1 and strip(assigns[0]["r"]).get("v") is True and \
-            any(a is extp for a in b.ancestors(assigns[0])) and \
-            b.guards(assigns[0]) == b.guards(ext[0])
-        rep.check(good, "flag-set-iff-merged", "the flag is set to true exactly on the path that extends an existing block",
-                  b.loc(ext[0]))
-        init = b.local_def.get(flag[0])
-        ok_init = init and init[0][0] == "let" and strip(init[0][1].get("init", {})).get("v") is False
-        rep.check(bool(ok_init), "flag-init-false", "the flag starts as false for every item", b.loc(then))
-        # the stored block carries the destructured parts unchanged
-        lit = strip(store[0]["args"][0])
-        for f in lit["fs"]:
-            src = b.canon(f["e"])
-            rep.check(src.endswith("~%s.%s" % (FM, f["f"])), "store-field:" + f["f"],
-                      "field `%s` of the stored block comes from `%s`" % (f["f"], src), b.loc(f["e"]))
-        a0 = b.canon(ext[0]["args"][0])
-        rep.check(a0.endswith("~%s.items" % FM), "extend-source", "existing block is extended with `%s`" % a0, b.loc(ext[0]))
-    # after the loop every collected block is pushed back
-    after = [n for n in b.walk() if n["k"] == "For" and n is not loop and not any(a is loop for a in b.ancestors(n))]
+    rep.check(len(ext) == 1 and ctx(ext[0]) == 1, "merge-extend-once", "exactly one extend of an existing block (found %d)" % len(ext), b.loc(loop["body"]))
+    rep.check(len(store) == 1 and ctx(store[0]) == 1, "store-new-block", "exactly one push of a new block (found %d)" % len(store), b.loc(loop["body"]))
+    if len(ext) != 1 or len(store) != 1:
+        return
+    flag = None
+    for pol, kind, g in b.guards(store[0], nested=True):
+        if kind != "cond":
+            continue
+        e = strip(g)
+        if e["k"] == "Unary" and e["op"] == "!" and strip(e["e"])["k"] == "Local" and b.ty(strip(e["e"])) == "bool":
+            flag = (strip(e["e"])["id"], not pol)
+        elif e["k"] == "Local" and b.ty(e) == "bool":
+            flag = (e["id"], pol)
+    if not rep.check(flag is not None and flag[1] is False, "store-iff-not-merged", "the new block is stored under `!<flag>`", b.loc(store[0])):
+        return
+    assigns = [n for n in b.walk() if n["k"] == "Assign" and strip(n["l"]).get("id") == flag[0]]
+    good_set = len(assigns) == 1 and strip(assigns[0]["r"]).get("v") is True and b.guards(assigns[0]) == b.guards(ext[0])
+    rep.check(good_set, "flag-set-iff-merged", "the flag is set to true exactly on the path that extends an existing block", b.loc(ext[0]))
+    init = b.local_def.get(flag[0])
+    let = init[0][1] if init and init[0][0] == "let" else None
+    ok_init = let is not None and strip(let.get("init", {})).get("v") is False
+    rep.check(bool(ok_init), "flag-init-false", "the flag is initialised to false", b.loc(let or loop))
+    per_item = let is not None and any(x is let for x in b.walk(loop["body"])) and \
+        not [a for a in b.ancestors(let) if a["k"] in ("For", "While", "Loop") and a is not loop and any(x is a for x in b.walk(loop["body"]))]
+    rep.check(per_item, "flag-per-item", "the flag is declared inside the loop body: it starts false for every item" if per_item else
+              "the merged-flag is declared outside the loop over the items: after the first merge it stays true, and every later block with "
+              "a new key is neither merged nor stored - its functions and statics vanish", b.loc(let or loop))
+    lit = strip(store[0]["args"][0])
+    for f in lit["fs"]:
+        src = b.canon(f["e"])
+        rep.check(src.endswith("~%s.%s" % (FM, f["f"])), "store-field:" + f["f"],
+                  "field `%s` of the stored block comes from `%s`" % (f["f"], src), b.loc(f["e"]))
+    a0 = b.canon(ext[0]["args"][0])
+    rep.check(a0.endswith("~%s.items" % FM), "extend-source", "existing block is extended with `%s`" % a0, b.loc(ext[0]))
+    # ---- order inside a key group ---------------------------------------------------------------------------------------
+    reorder = []
+    for c in b.calls(None, loop["body"]):
+        nm = c.get("name") or (c.get("callee") or "").split("::")[-1]
+        if nm in REORDERERS or (c.get("callee") or "").endswith("mem::swap") or (c.get("callee") or "").endswith("mem::replace"):
+            src = b.canon(c, 6)
+            if "ItemForeignMod::items" in src or "~%s.items" % FM in src or "ItemForeignMod.items" in src:
+                reorder.append(c)
+    rep.check(not reorder, "merge-keeps-order", "the incoming items are appended behind the collected ones; neither list is reordered" if not reorder else
+              "`%s` touches the item list of a block inside the merge loop: the relative order of foreign items within one key group "
+              "is no longer the order they were generated in" % b.canon(reorder[0], 3)[:100], b.loc(reorder[0] if reorder else ext[0]))
+    # ---- after the loop every collected block is pushed back --------------------------------------------------------------
     okb = False
-    for n in after:
-        for c in b.calls(lambda n: n["k"] == "MCall" and n["name"] == "push", n["body"]):
+    for n in [x for x in b.walk() if x["k"] == "For" and x is not loop and not any(a is loop for a in b.ancestors(x))]:
+        for c in b.calls(lambda x: x["k"] == "MCall" and x["name"] == "push", n["body"]):
             a = strip(c["args"][0])
             if a["k"] == "Call" and a.get("ctor_of") == "syn::Item::ForeignMod" and not [g for g in b.guards(c) if g not in b.guards(n)]:
                 okb = True
+    for c in b.calls(lambda x: x["k"] == "MCall" and x["name"] == "extend"):
+        if any(a is loop for a in b.ancestors(c)) or b.guards(c):
+            continue
+        src = b.canon(c["args"][0], 8)
+        if "syn::Item::ForeignMod" in src and "into_iter" in src and "map(" in src and not any(w in src for w in ("filter", "skip", "take(", "step_by", "rev(")):
+            okb = True
     rep.check(okb, "push-back-blocks", "all collected extern blocks are pushed back after the loop", b.loc(b.root))
 
 
